@@ -2,13 +2,13 @@ from props import KERNEL, HARNESS, TRANSLATOR, CORR
 
 CONFIG = {
     "props_file": "props/C17.v",
-    "coq_targets": ["props/C17.vo", "model/EntityCorr.vo", "model/EntityStrcaseCorr.vo", "proofs/StrcaseProofs.vo"],
+    "coq_targets": ["props/C17.vo", "proofs/EntityReadmeProofs.vo", "model/EntityCorr.vo", "model/EntityStrcaseCorr.vo", "proofs/StrcaseProofs.vo"],
     "runner": "run_ent",           # harness/cmd/run_ent (streams: entity declarations, strcase)
     "gens": ["gen_ent"],           # harness/cmd/gen_ent -> coq/gen/EntityGen.v
     "level": "proof",
     "trusted_base": [
         KERNEL,
-        TRANSLATOR + " (EntityGen.v: entityNode.run call order, componentName/innerRef literals per function, strcase calls on concatenations, Sprintf formats, property names, EntityPart constants, schemaRefField packages, implicitImports, strcase version, ConfigureAcronym occurrences)",
+        TRANSLATOR + " (EntityGen.v: entityNode.run call order, componentName/innerRef literals per function, strcase calls on concatenations, Sprintf formats, property names, EntityPart constants, schemaRefField packages, implicitImports, strcase version, ConfigureAcronym occurrences; README.md 'Foo Example': the documented declaration and the proto it documents)",
         CORR, HARNESS,
         "modelled, not verified: github.com/iancoleman/strcase v0.3.0 (lib/Strcase.v, byte-exact incl. strings.TrimSpace on bytes; checked against the real library on every run), path.Join for clean operands, the BCL parser and the rest of j5convert (field type conversion) are exercised through the real compiler only",
     ],
